@@ -210,6 +210,7 @@ func runSockLegC02(c *Ctx) {
 				break
 			}
 			k.tr.SoftEOF(8, int64(len(st)))
+			k.tr.SoftEOFWithData = trickle%2 == 0 // the second response: data and "nothing more" in one read
 			q := (len(st) - 8) / 4
 			paceOK := true
 			t0 := time.Now()
